@@ -19,6 +19,8 @@ LEVEL_TEXT = ('Decides, for every rule of the shipped grammar at once, that the 
 TECHNIQUE += "; generated configuration read back from the emitted ParserConfig(...) call (every setting is the model's own value or absent)"
 LEVEL_TEXT += ' Added clause: regeneration does not resolve unset settings at generation time.'
 TECHNIQUE += '; optimizer equivalence (= C01.R11): the bootstrap is regenerated from the optimized model'
+TECHNIQUE += '; cut scoping of the context managers generated parsers run on (= C05.R3)'
+LEVEL_TEXT += ' Added clause: the runtime the shipped bootstrap runs on scopes cuts as the model does.'
 LEVEL_NOTE = ('Trusted: the three front-ends of the checker (EBNF reader written from docs/syntax.rst, decompiler of the emitted '
               'with-block idiom, reader of the repr-as-source) and the canonicaliser, whose rewrites subsume Model.optimized().')
 EXPLANATION = ('Static translation validation on /repo sources; TatSu is not imported, no grammar is compiled. programs = rule '
